@@ -28,6 +28,7 @@ func init() {
 
 func runC15(c *Ctx) {
 	p := c.P
+	runC15Tracked(c)
 	delStatus := p.Field(hsStorage + ":HeadsEntry.DeletedStatus")
 	updStatus := p.Field(hsStorage + ":HeadsUpdate.DeletedStatus")
 	notDeleted := constVal(p, hsStorage, "DeletedStatusNotDeleted")
